@@ -1682,16 +1682,18 @@ def describe_place(body, place, depth=0):
                         break
                 if base is not None:
                     break
-        if base is None and local == 1 and projs and isinstance(projs[0], list) and projs[0][0] == "f" and depth < 20:
+        if base is None and local == 1 and projs and depth < 20:
             # a captured variable without a name of its own: it is what the enclosing function put into the closure
-            o = body.upvar_origin(projs[0][1])
-            if o is not None:
-                base = describe_operand(o[0], o[1], depth + 1).lstrip("&")
-                if base.startswith("mut "):
-                    base = base[4:]
-                projs = projs[1:]
-                if projs and projs[0] == "*":
-                    projs = projs[1:]
+            pj = projs[1:] if projs[0] == "*" else projs
+            if pj and isinstance(pj[0], list) and pj[0][0] == "f":
+                o = body.upvar_origin(pj[0][1])
+                if o is not None:
+                    base = describe_operand(o[0], o[1], depth + 1).lstrip("&")
+                    if base.startswith("mut "):
+                        base = base[4:]
+                    projs = pj[1:]
+                    if projs and projs[0] == "*":
+                        projs = projs[1:]
         if base is None:
             base = "arg%d" % local if 1 <= local <= body.argc else "_%d" % local
     s = base
